@@ -151,6 +151,50 @@ let edop_of_token = function
 
 let composite_ops = ["Sqrt"; "Cbrt"; "Exp"; "Ln"; "Log10"; "Pow"; "Ceil"; "Floor"]
 
+let rec nat_of_int n = if n <= 0 then O else S (nat_of_int (n - 1))
+
+(* ---------- BigInt programs ---------- *)
+let z_of_big_dec (s : string) : z =
+  (* arbitrary-length decimal, optional sign *)
+  let neg, s = if String.length s > 0 && s.[0] = '-' then (true, String.sub s 1 (String.length s - 1)) else (false, s) in
+  let ten = z_of_int 10 in
+  let acc = ref Z0 in
+  String.iter (fun c -> acc := Z.add (Z.mul !acc ten) (z_of_int (Char.code c - 48))) s;
+  if neg then Z.opp !acc else !acc
+
+let bigstate_of_token (t : string) : bigint =
+  match String.split_on_char '/' t with
+  | ["i"; n; w0; w1] -> BInline (n = "1", z_of_hex w0, z_of_hex w1)
+  | ["h"; v] -> BHeap (z_of_hex v)
+  | _ -> failwith ("bigstate " ^ t)
+let oz_of_token t = if t = "-" then None else Some (z_of_big_dec t)
+let bscal_of = function
+  | [sg; bl; i64; u64; vi; vu; c; ca; b0] ->
+      { bs_sign = z_of_dec_string sg; bs_bitlen = z_of_dec_string bl; bs_isint64 = (i64 = "1"); bs_isuint64 = (u64 = "1");
+        bs_int64 = oz_of_token vi; bs_uint64 = oz_of_token vu; bs_cmp = z_of_dec_string c; bs_cmpabs = z_of_dec_string ca;
+        bs_bit0 = z_of_dec_string b0 }
+  | _ -> failwith "bscal"
+let rec split_all (sep : string) (l : string list) : string list list =
+  match split_at sep l with
+  | (a, []) -> if List.mem sep l then [a; []] else [a]
+  | (a, b) -> a :: split_all sep b
+let bstep_of (op : string) (d : int) (a : int) (b : int) (arg : string) : bstep option * int option =
+  let n = nat_of_int in
+  match op with
+  | "SetInt64" -> (Some (BsSetInt64 (n d, z_of_big_dec arg)), None)
+  | "SetUint64" -> (Some (BsSetUint64 (n d, z_of_big_dec arg)), None)
+  | "SetDec" -> (Some (BsSetDec (n d, z_of_big_dec arg)), None)
+  | "SetMath" -> (Some (BsSetMath (n d, z_of_big_dec arg)), None)
+  | "Set" -> (Some (BsSet (n d, n a)), None) | "Abs" -> (Some (BsAbs (n d, n a)), None) | "Neg" -> (Some (BsNeg (n d, n a)), None)
+  | "Add" -> (Some (BsAdd (n d, n a, n b)), None) | "Sub" -> (Some (BsSub (n d, n a, n b)), None)
+  | "Mul" -> (Some (BsMul (n d, n a, n b)), None) | "Quo" -> (Some (BsQuo (n d, n a, n b)), None)
+  | "Rem" -> (Some (BsRem (n d, n a, n b)), None)
+  | "QuoRem" -> let ri = int_of_string arg in (Some (BsQuoRem (n d, n ri, n a, n b)), Some ri)
+  | "DivMod" -> (None, Some (int_of_string arg))
+  | "Lsh" -> (Some (BsLsh (n d, n a, z_of_big_dec arg)), None) | "Rsh" -> (Some (BsRsh (n d, n a, z_of_big_dec arg)), None)
+  | "Sqrt" -> (Some (BsSqrt (n d, n a)), None)
+  | _ -> (None, None)
+
 (* "dec,cond,err" *)
 let mres_of_token (t : string) : mres option =
   if t = "-" then None else
@@ -158,7 +202,6 @@ let mres_of_token (t : string) : mres option =
   | [d; c; e] -> Some { m_dec = dec_req d; m_cond = cond_of_Z (z_of_dec_string c); m_err = err_of_token e }
   | _ -> failwith ("mres " ^ t)
 let mres_req t = match mres_of_token t with Some r -> r | None -> failwith "mres -"
-let rec nat_of_int n = if n <= 0 then O else S (nat_of_int (n - 1))
 
 let judge_line (line : string) =
   incr total;
@@ -193,6 +236,33 @@ let judge_line (line : string) =
              corr_full k oT
          | _ -> [z_of_int 99]) in
       report line (corr @ codes)
+  | "bi" :: _n :: steps, rhs ->
+      bump opcount "BigIntProgram";
+      let rec parse = function
+        | op :: d :: a :: b :: arg :: rest -> (op, int_of_string d, int_of_string a, int_of_string b, arg) :: parse rest
+        | [] -> []
+        | _ -> failwith "bi steps" in
+      let prog = parse steps in
+      let obs = split_all ";" rhs in
+      if List.length obs <> List.length prog then report line [z_of_int 99] else begin
+        let regs = ref [BInline (false, Z0, Z0); BInline (false, Z0, Z0); BInline (false, Z0, Z0); BInline (false, Z0, Z0)] in
+        let codes = ref [] in
+        List.iter2 (fun (op, d, a, b, arg) toks ->
+          let (st, mreg) = bstep_of op d a b arg in
+          let (impl, mirror) = split_at "~" toks in
+          (match impl, mirror with
+           | sd :: sm :: iscal, mv :: mm :: rest when List.length iscal = 9 && List.length rest = 10 ->
+               let mscal = bscal_of (List.filteri (fun i _ -> i < 9) rest) in
+               let textok = (List.nth rest 9 = "1") in
+               let om = if sm = "-" then None else Some (bigstate_of_token sm) in
+               let (cs, regs') = judge_bigstep !regs st (nat_of_int d) (nat_of_int a)
+                   (match mreg with Some i -> Some (nat_of_int i) | None -> None)
+                   (bigstate_of_token sd) om (bscal_of iscal) (z_of_hex mv) (if mm = "-" then None else Some (z_of_hex mm)) mscal textok in
+               codes := !codes @ cs; regs := regs'
+           | _ -> codes := !codes @ [z_of_int 99])) prog obs;
+        if List.length prog > 3 then Hashtbl.replace nontrivial (String.concat " " lhs) ();
+        report line (List.sort_uniq compare !codes)
+      end
   | "ed" :: p :: emax :: emin :: traps :: rnd :: r0 :: r1 :: r2 :: r3 :: _n :: steps, rhs ->
       let (a, b) = split_at "|" rhs in
       bump opcount "ErrDecimalProgram";
